@@ -14,6 +14,8 @@ CONSTANTS
   CopytreeIgnoresExclude = FALSE
   DircmpIgnoreList = FALSE
   DryJobNeedsDstDir = FALSE
+  CloneExcludeHitsSpecial = FALSE
+  CliFilterOnCwd = FALSE
 INIT Init
 NEXT Next
 INVARIANT DryRunFrame
